@@ -285,35 +285,77 @@ func c09R2(r *Report) {
 				r.Check(len(c.Call.Args) == 5 && dropCallback(c.Call.Args[3]), "R2", key, pos, "Expire's drop callback drops each expired block", "Expire is called with a drop callback that does not drop the removed block")
 			case "Enqueue":
 				// a commanded block that is not enqueued must be dropped: excuse = the true edge of the
-				// boolean that carries Enqueue's result (possibly through a phi with constant false)
-				var carrier ssa.Value = c
-				for _, ref := range *c.Referrers() {
-					if ph, ok := ref.(*ssa.Phi); ok {
-						okPhi := true
-						for _, e := range ph.Edges {
-							if e == ssa.Value(c) {
-								continue
+				// boolean that carries Enqueue's result (possibly through a phi with constant false).
+				// When the call sits in a private helper that hands that boolean back (enqueue(peer, chunk) bool:
+				// every return is `false` or Enqueue's own result), the obligation is the caller's: the rule is
+				// applied to each call of the helper instead.
+				var checkAt func(c *ssa.Call, depth int)
+				checkAt = func(c *ssa.Call, depth int) {
+					f := c.Parent()
+					var carrier ssa.Value = c
+					for _, ref := range *c.Referrers() {
+						if ph, ok := ref.(*ssa.Phi); ok {
+							okPhi := true
+							for _, e := range ph.Edges {
+								if e == ssa.Value(c) {
+									continue
+								}
+								if b, isb := constBool(e); !isb || b {
+									okPhi = false
+								}
 							}
-							if b, isb := constBool(e); !isb || b {
-								okPhi = false
+							if okPhi {
+								carrier = ph
 							}
-						}
-						if okPhi {
-							carrier = ph
 						}
 					}
-				}
-				// exploration starts at the loop-body entry: the first instruction of the block that
-				// dominates the Enqueue call and extracts the range element; approximate by the call to fromChunk
-				start := ssa.Instruction(c)
-				for _, ci2 := range callsIn(f) {
-					if c2, ok := ci2.(*ssa.Call); ok && isCallNamed(c2, "peer", "fromChunk") && c2.Block().Dominates(c.Block()) {
-						if ph, isPhi := carrier.(*ssa.Phi); isPhi && c2.Block().Dominates(ph.Block()) {
-							start = c2
+					// hands the boolean back?
+					if depth < 3 && f.Parent() == nil && f.Signature.Results().Len() == 1 && types.Identical(f.Signature.Results().At(0).Type(), types.Typ[types.Bool]) {
+						if obj, ok := f.Object().(*types.Func); ok && !obj.Exported() {
+							hands := true
+							for _, ret := range returnsOf(f) {
+								v := retResults(ret)[0]
+								if b, isb := constBool(v); isb && !b {
+									continue
+								}
+								if v == carrier || v == ssa.Value(c) {
+									continue
+								}
+								hands = false
+							}
+							calls, escapes := p.callSitesOf(f)
+							if hands && len(escapes) == 0 && len(calls) > 0 {
+								for _, cs := range calls {
+									cc, ok := cs.(*ssa.Call)
+									if !ok || relPkg(cs.Parent()) != "peer" {
+										hands = false
+									}
+									_ = cc
+								}
+								if hands {
+									for _, cs := range calls {
+										checkAt(cs.(*ssa.Call), depth+1)
+									}
+									return
+								}
+							}
 						}
 					}
+					// exploration starts at the loop-body entry: the first instruction of the block that
+					// dominates the Enqueue call and extracts the range element; approximate by the call to fromChunk
+					start := ssa.Instruction(c)
+					for _, ci2 := range callsIn(f) {
+						if c2, ok := ci2.(*ssa.Call); ok && isCallNamed(c2, "peer", "fromChunk") && c2.Block().Dominates(c.Block()) {
+							if ph, isPhi := carrier.(*ssa.Phi); isPhi && c2.Block().Dominates(ph.Block()) {
+								start = c2
+							}
+						}
+					}
+					key = fmt.Sprintf("%s/requests.%s", fname(f), cal.Name())
+					pos = c.Pos()
+					report(unreportedExits(mustCfg{start, isReport, []excuse{{carrier, true}}}), "Enqueue (a commanded block that is refused or not advertised must be dropped)")
 				}
-				report(unreportedExits(mustCfg{start, isReport, []excuse{{carrier, true}}}), "Enqueue (a commanded block that is refused or not advertised must be dropped)")
+				checkAt(c, 0)
 			}
 		}
 	}
@@ -367,7 +409,27 @@ func c09R1(r *Report) {
 				continue
 			}
 			if acc.Write {
-				writers[acc.Fn] = fa.Pos()
+				// a store of the slice itself: growing it by zero counters (append(t.available, make(…)…)) keeps every
+				// existing counter and adds blocks nobody has counted yet; anything else is a counter write
+				grows := false
+				for _, ref := range *fa.Referrers() {
+					st, ok := ref.(*ssa.Store)
+					if !ok || st.Addr != ssa.Value(fa) {
+						continue
+					}
+					if ap, ok := st.Val.(*ssa.Call); ok {
+						if bi, okb := ap.Call.Value.(*ssa.Builtin); okb && bi.Name() == "append" && len(ap.Call.Args) == 2 {
+							f0, _ := loadedField(ap.Call.Args[0])
+							_, zeros := ap.Call.Args[1].(*ssa.MakeSlice)
+							if f0 == fv && zeros {
+								grows = true
+							}
+						}
+					}
+				}
+				if !grows {
+					writers[acc.Fn] = fa.Pos()
+				}
 			}
 			for _, ref := range *fa.Referrers() {
 				ld, ok := ref.(*ssa.UnOp)
@@ -392,6 +454,8 @@ func c09R1(r *Report) {
 			switch {
 			case f == wf:
 				r.Ok("R1", key, pos, "%s is written by its designated writer", c.field)
+			case p.inUnitOf(f, wf):
+				r.Ok("R1", key, pos, "%s is written by a private helper of its designated writer %s", c.field, c.writer)
 			case f.Name() == "MetadataComplete" && c.field == "inFlight":
 				r.Ok("R1", key, pos, "exception: MetadataComplete allocates the (all-zero) counter array once, before any request exists")
 			default:
@@ -467,9 +531,8 @@ func c09R1(r *Report) {
 			}
 			ok := false
 			for _, g := range guardsOf(ci.Block()) {
-				g = g.norm()
-				if bo, isb := g.Cond.(*ssa.BinOp); isb && bo.Op == token.EQL && g.Pol && isNilConst(bo.Y) {
-					if c, isc := bo.X.(*ssa.Call); isc && isCallNamed(c, "tor", "maybeWritePeer") {
+				if x, isNil, okn := nilFact(g); okn && isNil {
+					if c, isc := x.(*ssa.Call); isc && isCallNamed(c, "tor", "maybeWritePeer") {
 						ok = true
 					}
 				}
@@ -522,18 +585,68 @@ func c09R3(r *Report) {
 			r.Undecided("R3", key, ci.Pos(), "cannot find the loop bound that drives noteInFlight(false)")
 			continue
 		}
-		q, ok := bound.(*ssa.BinOp)
-		if !ok || q.Op != token.QUO {
-			r.Undecided("R3", key, ci.Pos(), "loop bound %s is not a division by the block size", exprStr(bound))
-			continue
+		// divForm: v is x / ChunkSize; returns x split as base + const. Seen through a helper of package tor that
+		// computes the count from one of its parameters (chunkSpan(t, index, begin, length) → first, count, err):
+		// every return's value is either the constant 0 (the error returns) or the same form of the same parameter.
+		var divForm func(v ssa.Value, d int) (q *ssa.BinOp, base ssa.Value, add int64, why string)
+		divForm = func(v ssa.Value, d int) (*ssa.BinOp, ssa.Value, int64, string) {
+			v = stripIntConv(v)
+			if ex, ok := v.(*ssa.Extract); ok && d < 3 {
+				if call, ok := ex.Tuple.(*ssa.Call); ok {
+					h := call.Call.StaticCallee()
+					if h != nil && h.Blocks != nil && relPkg(h) == "tor" && !call.Call.IsInvoke() {
+						var q0 *ssa.BinOp
+						idx, add0 := -1, int64(0)
+						for _, ret := range returnsOf(h) {
+							res := retResults(ret)
+							if ex.Index >= len(res) {
+								return nil, nil, 0, "helper result missing"
+							}
+							if k, isk := constInt(res[ex.Index]); isk && k == 0 {
+								continue
+							}
+							q, base, add, why := divForm(res[ex.Index], d+1)
+							if q == nil {
+								return nil, nil, 0, why
+							}
+							prm, isP := stripIntConv(base).(*ssa.Parameter)
+							if !isP {
+								return nil, nil, 0, "the helper's count is not computed from one of its parameters"
+							}
+							k := -1
+							for i, pp := range h.Params {
+								if pp == prm {
+									k = i
+								}
+							}
+							if k < 0 || (idx >= 0 && (idx != k || add0 != add)) {
+								return nil, nil, 0, "the helper's returns compute the count differently"
+							}
+							q0, idx, add0 = q, k, add
+						}
+						if idx >= 0 && idx < len(call.Call.Args) {
+							return q0, call.Call.Args[idx], add0, ""
+						}
+					}
+				}
+			}
+			q, ok := v.(*ssa.BinOp)
+			if !ok || q.Op != token.QUO {
+				return nil, nil, 0, fmt.Sprintf("loop bound %s is not a division by the block size", exprStr(v))
+			}
+			if c, okk := constInt(q.Y); !okk || c != chunk {
+				return nil, nil, 0, fmt.Sprintf("loop bound divides by %s, not by the block size", exprStr(q.Y))
+			}
+			base, add := splitAddConst(q.X)
+			return q, base, add, ""
 		}
-		if c, okk := constInt(q.Y); !okk || c != chunk {
-			r.Undecided("R3", key, ci.Pos(), "loop bound divides by %s, not by the block size", exprStr(q.Y))
+		q, base, add, why := divForm(bound, 0)
+		if q == nil {
+			r.Undecided("R3", key, ci.Pos(), "%s", why)
 			continue
 		}
 		// ceil form: (Length + ChunkSize-1) / ChunkSize
-		base, add := splitAddConst(q.X)
-		fv, _ := loadedField(base)
+		fv, _ := loadedField(stripIntConv(base))
 		isLen := fv != nil && fv.Name() == "Length"
 		switch {
 		case isLen && add == chunk-1:
